@@ -390,6 +390,22 @@ static void dump_channel(long k, const char *tag, int rc, ares_channel_t *c)
   ares_free_string(csv);
 }
 
+/* the effective interface name and scope id of every server (the text form shows the name only) */
+static void dump_scopes(long k, const char *tag, ares_channel_t *c)
+{
+  ares_slist_node_t *n;
+  int                first = 1;
+  printf("%ld R %s scopes=", k, tag);
+  for (n = ares_slist_node_first(c->servers); n != NULL; n = ares_slist_node_next(n)) {
+    const ares_server_t *sv = ares_slist_node_val(n);
+    printf("%s", first ? "" : ",");
+    puthexstr(sv->ll_iface);
+    printf("/%u", sv->ll_scope);
+    first = 0;
+  }
+  printf("%s\n", first ? "-" : "");
+}
+
 static void dump_saved(long k, const char *tag, int rc, const struct ares_options *o, int m)
 {
   int i;
@@ -584,6 +600,7 @@ static void run_opt(long k, const params_t *p)
   }
   apply_setters(k, p, a);
   dump_channel(k, "A", rc, a);
+  dump_scopes(k, "As", a);
 
   /* save -> init -> save */
   memset(&so, 0x5a, sizeof(so)); /* ares_save_options must not rely on a zeroed struct */
@@ -607,6 +624,7 @@ static void run_opt(long k, const params_t *p)
   /* dup */
   rc = ares_dup(&d, a);
   dump_channel(k, "C", rc, rc == ARES_SUCCESS ? d : NULL);
+  if (rc == ARES_SUCCESS && d != NULL) dump_scopes(k, "Cs", d);
   /* the socket function table (which carries the interface lookups) must be the source's */
   if (rc == ARES_SUCCESS && d != NULL)
     printf("%ld R C2 sf=%d\n", k, memcmp(&d->sock_funcs, &a->sock_funcs, sizeof(d->sock_funcs)) == 0 ? 1 : 0);
